@@ -85,4 +85,8 @@ Example C05_json_example :
                  [ "{"%byte; x0a; dqt; bsl; dqt; x00; xff; "}"%byte ] in
   json_ok m = true /\
   exists f size, json_pack (fun b => b) jesc_byte 1000 [] m = Ok (f, size) /\ blen f < 4294967296.
-Proof. intros m. split; [vm_compute; reflexivity|]. eexists. eexists. split; vm_compute; reflexivity. Qed.
+Proof.
+  intros m. split; [vm_compute; reflexivity|].
+  remember (json_pack (fun b => b) jesc_byte 1000 [] m) as r eqn:E. vm_compute in E. subst r.
+  eexists. eexists. split; [reflexivity|]. vm_compute. reflexivity.
+Qed.
